@@ -586,7 +586,7 @@ PlainExact(S, D, n) ==
        /\ \A c \in Succs(D, n) :
              LET lst == D.edges[<<n, c>>]
                  exp == SelectSeq(ms, LAMBDA m : Perc(S.nt, m) = D.nodes[c].space)
-             IN lst = exp                                   \* same motifs, same (key) order, no repeats
+             IN SeqToSet(lst) = SeqToSet(exp) /\ Len(lst) = Len(exp)     \* exactly these motifs, each once (any order)
 \* successors of a node expanded by skipping / shortcuts: trap spaces strictly inside that keep
 \* every minimal trap space reachable
 OtherSound(S, D, n) ==
